@@ -373,7 +373,8 @@ def match_template(
 
         return ()
 
-    if node == template:
+    # Values of different types are different code, even if they compare equal (1, 1.0, True).
+    if type(node) is type(template) and node == template:
         return (node,)
 
     return ()
